@@ -400,6 +400,97 @@ theorem C08_flush_before_fit_params_witness :
   let o : FitOracle := { params := [7#8], code := fun _ => [2#8] }
   refine ⟨s, KV.empty, o, ((s.flush KV.empty).1.fit (s.flush KV.empty).2 o).get (by decide), (s.fit KV.empty o).get (by decide), ?_, ?_, ?_, ?_, ?_, ?_⟩ <;> first | simp | decide
 
+
+/-! ### the batch that crosses the trigger threshold, at the level of the store (`Store.fit`, then `Store.flush`) -/
+
+/-- a parameter key is invisible to the point plan: putting it keeps the cache coherent -/
+theorem coherent_put_other_binary {c : Cache Id Pt} {kv : KV}
+    (h : Coherent (storable binaryQuantizedPoint) norm okQ c kv) (pk x : Bytes) (hpk : ∀ id s, nodeKey id s ≠ pk) :
+    Coherent (storable binaryQuantizedPoint) norm okQ c (kv.put pk x) := by
+  have hr : ∀ id, (storable binaryQuantizedPoint).readFrom id (kv.put pk x) = (storable binaryQuantizedPoint).readFrom id kv := by
+    intro id
+    simp only [storable]
+    exact readSteps_put_other id kv pk x hpk _ _
+  have ho : ∀ id, obs (storable binaryQuantizedPoint) norm (kv.put pk x) id = obs (storable binaryQuantizedPoint) norm kv id := by
+    intro id
+    simp only [obs, hr]
+  refine ⟨h.nodup, ?_, ?_, ?_⟩
+  · intro id e hf
+    obtain ⟨a, b, c'⟩ := h.agree id e hf
+    exact ⟨a, b, by rw [ho]; exact c'⟩
+  · intro id e hf hw
+    obtain ⟨h1, h2⟩ := h.rewrite id e hf hw
+    refine ⟨h1, fun hc => ?_⟩
+    have hq : qKey id ≠ pk := hpk id _
+    rw [get_put, if_neg hq]
+    exact h2 hc
+  · intro ha id hs
+    rw [hr] at hs
+    exact h.allIn ha id hs
+
+/-- what `Store.fit` leaves behind is still a trackable cache, the configuration is untouched, and a
+store that is untrained afterwards was untrained before (binary store, learned threshold) -/
+theorem fit_tracked_binary (s s' : Store) (kv : KV) (o : FitOracle) (hk : s.cfg.kind = .binary)
+    (ht : Tracked (storable binaryQuantizedPoint) norm okQ s.cache kv)
+    (hcode : ∀ id, o.code id ≠ []) (hfit : s.fit kv o = some s') :
+    Tracked (storable binaryQuantizedPoint) norm okQ s'.cache kv ∧ s'.cfg = s.cfg ∧ (s'.params = [] → s.params = []) := by
+  have hst : s.st = storable binaryQuantizedPoint := by simp [Store.st, planOf, hk]
+  unfold Store.fit at hfit
+  simp only [hk, hst] at hfit
+  split at hfit
+  · cases hfit; exact ⟨ht, rfl, id⟩
+  · rename_i hnot
+    have huntr : s.params = [] := by
+      simp only [Bool.or_eq_true, not_or, Store.trained] at hnot
+      have := hnot.1
+      cases hp : s.params <;> simp_all
+    obtain ⟨c', l, hfe, htr', _, _, _, _⟩ := forEach_spec laws_binary enum_binary (wf := fun _ => True) trivial ht
+    have hload : loadAll (storable binaryQuantizedPoint) s.cache kv = some c' := by
+      unfold forEach at hfe
+      cases hl : loadAll (storable binaryQuantizedPoint) s.cache kv with
+      | none => rw [hl] at hfe; cases hfe
+      | some c'' => rw [hl] at hfe; simp only [Option.map_some, Option.some.injEq, Prod.mk.injEq] at hfe; rw [hfe.1]
+    rw [hload] at hfit
+    simp only at hfit
+    split at hfit
+    · cases hfit; exact ⟨htr', rfl, fun _ => huntr⟩
+    · cases hfit
+      refine ⟨?_, rfl, fun _ => huntr⟩
+      have := tracked_mapLive htr' (fun id p => ({ vec := (o.vec id).getD p.vec, code := o.code id, dirty := true } : Pt))
+        (fun id e _ _ => Or.inl (by simp [storable, binaryQuantizedPoint]))
+        (fun id e _ _ => ⟨Or.inl (hcode id), fun hc => absurd hc (hcode id)⟩)
+      simpa [mapLive] using this
+
+/-- **C08_train_in_batch_binary**: the write path of a vector index ends `Fit; Flush` (pinned above).
+Whatever `Fit` decides — still below the trigger, already trained, or *trained in this very batch* —
+after the `Flush` the cache is coherent with the committed bucket (re-encoded points included), and a
+store re-created on that bucket (`vectorstore.New` after a restart / an eviction / with the cache
+disabled) has exactly the parameters of the live store: warm and cold compute the same distances
+from the same stored codes.  (`C08_flush_before_fit_params_witness` shows that the other order does
+not have this property.) -/
+theorem C08_train_in_batch_binary (s s' : Store) (kv : KV) (o : FitOracle)
+    (hk : s.cfg.kind = .binary) (hfix : s.cfg.fixed = none)
+    (ht : Tracked (storable binaryQuantizedPoint) norm okQ s.cache kv)
+    (huntrained : s.params = [] → kv.get thresholdKey = none)
+    (hcode : ∀ id, o.code id ≠ []) (hfit : s.fit kv o = some s') :
+    Coherent (storable binaryQuantizedPoint) norm okQ (s'.flush kv).1.cache (s'.flush kv).2 ∧
+    (Store.new s.cfg (s'.flush kv).2).params = s'.params := by
+  obtain ⟨ht', hcfg, hun⟩ := fit_tracked_binary s s' kv o hk ht hcode hfit
+  have hk' : s'.cfg.kind = .binary := by rw [hcfg]; exact hk
+  have hst' : s'.st = storable binaryQuantizedPoint := by simp [Store.st, planOf, hk']
+  constructor
+  · have hf := (flush_spec laws_binary ht').1
+    unfold Store.flush
+    simp only [hk', hst']
+    split
+    · exact coherent_put_other_binary hf _ _ thresholdKey_ne
+    · exact hf
+  · have := C08_params_persist_binary s' kv hk' (by rw [hst']; exact ht')
+      (fun t h => by rw [hcfg, hfix] at h; cases h)
+      (fun hp _ => huntrained (hun hp))
+    rw [← hcfg]
+    exact this
+
 /-! ### lifetime of bucket memory: what is cached across transactions must be a copy -/
 
 /-- no `ReadFrom` / constructor of the anchored files lets a byte slice of the storage layer escape
